@@ -160,6 +160,10 @@ def examine_sportshall(case):
         carriers.append(('text1', '%d.%d' % (c // 100, (c % 100) // 10)))
     if c % 100 == 0:
         carriers.append(('text0', '%d' % (c // 100)))
+    # the mark as a number (the scoring functions of the other systems take numbers; so does this one)
+    carriers.append(('float', centi_float(c)))
+    if c % 100 == 0:
+        carriers.append(('int', c // 100))
     region = 'beyond' if isinstance(want, tuple) or want > info['thresholds'][-1][0] else 'table'
     for name, perf in carriers:
         _cmp(out, 'equals-table', ['sportshall', ev if region == 'table' and ev == 'SHJ' else region], case, name,
